@@ -145,7 +145,7 @@ impl Check for ReplCheck {
         "C12/replacement".into()
     }
     fn classes(&self) -> &'static [&'static str] {
-        &["both non-empty", "cross-population tie at the cut", "mu < total", "mu == 0", "mu > total", "duplicates by value", "unequal sizes", "via Replacement::replace", "+inf objective", "populations below", "distinct objective values within a few representable steps or f64::EPSILON of each other", "executed inside nested scopes", "best-so-far individual and counters present in the state", "the operator ran on other populations in the same state before", "a population in a Vec with spare capacity"]
+        &["both non-empty", "cross-population tie at the cut", "mu < total", "mu == 0", "mu > total", "duplicates by value", "unequal sizes", "via Replacement::replace", "+inf objective", "populations below", "distinct objective values within a few representable steps or f64::EPSILON of each other", "executed inside nested scopes", "best-so-far individual and counters present in the state", "the operator ran on other populations in the same state before", "a population in a Vec with spare capacity", "the generator first replays a script of edge-value words (derived from the seed)"]
     }
     fn oracle(&self, c: &Case) -> Outcome {
         let mut cl = 0u64;
@@ -212,13 +212,16 @@ fn oracle(c: &Case, cl: &mut u64) -> Result<(), Failure> {
             *cl |= 16;
         }
     }
+    if !crate::fixtures::script_of(c.seed).is_empty() {
+        *cl |= 1 << 15;
+    }
     let problem = RealP::new(1, 0.0, 1.0, RealKind::Tag);
     let at = format!("{:?} on parents {pv:?} offspring {ov:?}", c.op);
     // run
     let result: Result<Vec<V>, String>;
     let mut below_after: Option<Vec<Vec<V>>> = None;
     if c.direct {
-        let mut rng = Random::new(c.seed);
+        let mut rng = crate::fixtures::random_for(c.seed);
         let extra = pv.len() + ov.len() + 3;
         let p: Vec<_> = roomy_vec(pv.iter().map(mkv).collect(), if c.roomy & 2 != 0 { extra } else { 0 });
         let o: Vec<_> = roomy_vec(ov.iter().map(mkv).collect(), if c.roomy & 1 != 0 { extra } else { 0 });
@@ -251,7 +254,7 @@ fn oracle(c: &Case, cl: &mut u64) -> Result<(), Failure> {
             *cl |= 1 << 14;
         }
         state.insert(ps);
-        state.insert(Random::new(c.seed));
+        state.insert(crate::fixtures::random_for(c.seed));
         let comp: Box<dyn Component<RealP>> = match &c.op {
             Op::Merge => Merge::new(),
             Op::Generational(m) => Generational::new(*m),
